@@ -140,6 +140,8 @@ func detBundle(rng *rand.Rand) *jBundle {
 	}
 	f.Imports = append(f.Imports, &jImport{Path: "bill.ledger.v1"}, &jImport{Path: "bill.ledger.v2"})
 	// a hand-written proto file of the package that imports the generated file of another package of the bundle
+	// a package whose directory lies below the directory of another package of the bundle
+	b.Files = append(b.Files, &jFile{Path: dir + "/billing/v1/nested.j5s", Pkg: f.Pkg + ".billing.v1", Elems: []*jElem{objDecl("NestedBelow", fld("label", tScalar(kString)))}})
 	// (a package that nothing else of the bundle refers to)
 	b.Files = append(b.Files, &jFile{Path: "bill/onlyproto/v1/stub.j5s", Pkg: "bill.onlyproto.v1", Elems: []*jElem{objDecl("Stub", fld("label", tScalar(kString)))}})
 	b.Protos[dir+"/handwritten.proto"] = "syntax = \"proto3\";\n\npackage " + f.Pkg + ";\n\nimport \"bill/onlyproto/v1/stub.j5s.proto\";\n\n// refers to a type compiled from j5s in another package\nmessage HandWritten {\n  bill.onlyproto.v1.Stub stub = 1;\n}\n"
